@@ -10,8 +10,8 @@ class PROP(Prop):
     profiles = ["debug"]
     rule = ("request sequences (1..4 requests) on the real TCP and RTU-over-TCP servers with: end of stream at EVERY byte offset; a write failure "
             "(error / zero write) at EVERY offset of every reply; read errors; every class of malformed input (invalid MBAP header, undecodable "
-            "PDU, RTU noise beyond the retry limit, oversized reply); accept-loop histories mixing good, rejected and failing connection setups "
-            "and an abort signal over real loopback sockets; the serial RTU server (server::rtu) on a pty with undecodable requests after j good ones and with the abort signal.  Oracle: silent end on a frame boundary; otherwise exactly one error report; all "
+            "PDU, RTU noise beyond the retry limit, oversized reply); accept-loop histories mixing good, rejected, misbehaving, reset-in-the-backlog and failing connection setups, "
+            "a setup that never completes, and an abort signal over real loopback sockets; the serial RTU server (server::rtu) on a pty with undecodable requests after j good ones and with the abort signal.  Oracle: silent end on a frame boundary; otherwise exactly one error report; all "
             "complete requests before the fault served (and answered), none after; accept loop keeps serving after failed/rejected/misbehaving "
             "connections, stops with the error on a failing setup, reports Aborted on abort.  non-trivial = a fault was injected")
 
@@ -107,8 +107,8 @@ class PROP(Prop):
                 cs.append(cligen.ser_case(parts if good else [], svctok, exp, "w", abort=True, meta={"k": "serial", "proto": "serial", "exp": exp, "clean": False, "want_end": "ABORTED"}))
         # --- accept loop
         for _ in range(40 if tier == "quick" else 300):
-            evs = [rng.choice(["s", "s", "r", "b"]) for _ in range(rng.randrange(1, 7))]
-            end = rng.choice(["a", "e:Other", "e:PermissionDenied", "a"])
+            evs = [rng.choice(["s", "s", "r", "b", "k"]) for _ in range(rng.randrange(1, 7))]     # k: peer reset while still in the backlog
+            end = rng.choice(["a", "e:Other", "e:PermissionDenied", "a", "h,a", "h,a"])            # h: a connection setup that never completes
             for proto in ("tcp", "rtu"):
                 good = cligen.frame(proto, 1, 1, b"\x11").hex()
                 bad = (b"\x00\x01\x00\x01\x00\x02\x01\x11" if proto == "tcp" else bytes([0x00, 0x80] * 13)).hex()
@@ -127,8 +127,8 @@ class PROP(Prop):
             return "panic/hang: %s" % r[:80]
         if m["k"] == "accept":
             # served connections: every 's' and 'b' (misbehaving) gets a task; 'r' rejected; then end
-            served = sum(1 for e in m["evs"] if e in ("s", "b"))
-            want_end = "ABORTED" if m["end"] == "a" else "E:" + m["end"][2:]
+            served = sum(1 for e in m["evs"] if e in ("s", "b", "k"))
+            want_end = "ABORTED" if m["end"] in ("a", "h,a") else "E:" + m["end"][2:]
             parts = r.split(" ")
             if len(parts) != 3:
                 return "accept result: %s" % r[:80]
